@@ -3,7 +3,7 @@ From AQ Require Import model.TlsCodec model.TParams proofs.TParamsProofs proofs.
 From AQ Require Import proofs.CodecProofs proofs.VarintProofs proofs.AckFrameProofs proofs.HeaderProofs proofs.TlsCodecProofs.
 From AQ Require Import proofs.TlsListProofs proofs.TlsRoundtrip proofs.TlsTotal proofs.TlsDumpInverse.
 From AQ Require Import gen.C17Bits proofs.CBitsProofs gen.C17Blocks proofs.TlsNested proofs.TlsReencode.
-From AQ Require Import proofs.AckReencode proofs.TlsReencodeExt proofs.TlsReencodeExt2 proofs.TlsReencodeCH proofs.TlsReencodeWitness proofs.TlsReencodeCanon.
+From AQ Require Import proofs.AckReencode proofs.HeaderReencode proofs.TlsReencodeExt proofs.TlsReencodeExt2 proofs.TlsReencodeCH proofs.TlsReencodeWitness proofs.TlsReencodeCanon.
 
 (* ---- variable-length integers (RFC 9000 section 16) ---- *)
 Theorem varint_roundtrip : forall v rest, 0 <= v < 2 ^ 62 ->
@@ -682,3 +682,56 @@ Theorem ack_reencode_nonminimal_refuted :
   pull_ack_frame [3; 0; 0; 5] = Ok (([(-2, 4)], 0), []) /\ reenc_ack [3; 0; 0; 5] = Some [3; 0; 0; 5].
 Proof. exact AckReencode.ack_reencode_nonminimal_refuted. Qed.
 Print Assumptions ack_reencode_nonminimal_refuted.
+
+(* ---- packet headers: decode, then rebuild from the decoded fields (e17) ----
+   Not returned by pull_quic_header, hence not preserved: the four low bits of the first byte (reserved bits, packet
+   number length -- under header protection when the header is parsed), the widths of the token-length and Length
+   varints, the packet number; for 1-RTT also spin bit and key phase.  Preserved: everything the decoder returns. *)
+Theorem header_reencode_long : forall hcl bs h rest pn, bytes_ok bs -> pull_quic_header hcl bs = Ok (h, rest) ->
+  (h_type h = PT_INITIAL \/ h_type h = PT_ZERO_RTT \/ h_type h = PT_HANDSHAKE) ->
+  exists version rl, h_version h = Some version /\ h_length h = Zlen bs - Zlen rest + rl /\ 0 <= rl <= Zlen rest /\
+    h_tag h = [] /\ h_versions h = [] /\ (h_type h <> PT_INITIAL -> h_token h = []) /\
+    (rl < 16384 ->
+     exists h0 pnb,
+       flatten (builder_long_header version (h_type h) (h_dcid h) (h_scid h) (h_token h) rl pn) = Ok (h0 ++ pnb) /\
+       Zlen pnb = 2 /\
+       forall after, rl <= Zlen (pnb ++ after) ->
+         pull_quic_header hcl (h0 ++ pnb ++ after) =
+           Ok (mkHeader (Some version) (h_type h) (Zlen h0 + rl) (h_dcid h) (h_scid h) (h_token h) [] [], pnb ++ after)).
+Proof. exact HeaderReencode.header_reencode_long. Qed.
+Print Assumptions header_reencode_long.
+
+(* Retry and Version Negotiation: the encoder applied to the decoded fields gives the datagram back, byte for byte *)
+Theorem header_reencode_retry : forall hcl bs h rest, bytes_ok bs -> pull_quic_header hcl bs = Ok (h, rest) ->
+  h_type h = PT_RETRY ->
+  exists version, h_version h = Some version /\ rest = [] /\ h_length h = Zlen bs /\ Zlen (h_tag h) = 16 /\
+    flatten (encode_quic_retry version (h_scid h) (h_dcid h) (h_token h) (hd 0 bs mod 16) (h_tag h)) = Ok bs.
+Proof. exact HeaderReencode.header_reencode_retry. Qed.
+Print Assumptions header_reencode_retry.
+
+Theorem header_reencode_vn : forall hcl bs h rest, bytes_ok bs -> pull_quic_header hcl bs = Ok (h, rest) ->
+  h_type h = PT_VERSION_NEGOTIATION ->
+  rest = [] /\ h_version h = Some 0 /\ h_length h = Zlen bs /\
+  flatten (encode_quic_version_negotiation (hd 0 bs mod 128) (h_scid h) (h_dcid h) (h_versions h)) = Ok bs.
+Proof. exact HeaderReencode.header_reencode_vn. Qed.
+Print Assumptions header_reencode_vn.
+
+Theorem header_reencode_short : forall hcl bs h rest spin kp pn after, bytes_ok bs ->
+  pull_quic_header hcl bs = Ok (h, rest) ->
+  h_type h = PT_ONE_RTT -> (spin = 0 \/ spin = 1) -> (kp = 0 \/ kp = 1) ->
+  h_version h = None /\ Zlen (h_dcid h) = hcl /\ h_length h = Zlen bs /\
+  h_scid h = [] /\ h_token h = [] /\ h_tag h = [] /\ h_versions h = [] /\
+  exists h0 pnb, flatten (builder_short_header spin kp (h_dcid h) pn) = Ok (h0 ++ pnb) /\ Zlen pnb = 2 /\
+    pull_quic_header hcl (h0 ++ pnb ++ after) =
+      Ok (mkHeader None PT_ONE_RTT (Zlen (h0 ++ pnb ++ after)) (h_dcid h) [] [] [] [], pnb ++ after).
+Proof. exact HeaderReencode.header_reencode_short. Qed.
+Print Assumptions header_reencode_short.
+
+Theorem header_reencode_not_canonical_refuted :
+  pull_quic_header 0 w_initial = Ok (mkHeader (Some 1) PT_INITIAL 18 [170] [] [85] [] [], [1; 2; 3]) /\
+  (exists b, flatten (builder_long_header 1 PT_INITIAL [170] [] [85] 3 258) = Ok b /\ Zlen b = 14 /\
+             b <> firstn 14 w_initial /\
+             pull_quic_header 0 (b ++ [3]) = Ok (mkHeader (Some 1) PT_INITIAL 15 [170] [] [85] [] [], [1; 2; 3])) /\
+  (push_uint16 (Z.lor 16384 16384) = Ok [64; 0] /\ pull_uint_var [64; 0] = Ok (0, [])).
+Proof. exact HeaderReencode.header_reencode_not_canonical_refuted. Qed.
+Print Assumptions header_reencode_not_canonical_refuted.
